@@ -535,6 +535,16 @@ for _j in (1, 2, 3, 4):
     for _p in ('C14', 'C13', 'C17'):
         NEGATIVE[_p].append('selftest/negative/R14N1-p%d.patch' % _j)
 
+# round 17: refactorings of the verifier sides and of the decoders written after the sense / correspondence rules of rounds 15 - 16 (ten of nineteen are
+# silent and registered here; nine are stated limits, selftest/negative/limits, DESIGN 8: all nine alarms come from rules older than round 15)
+_R17 = {'R17N1': ['C13', 'C18'], 'R17N2': ['C14', 'C15', 'C16'], 'R17N3': ['C14', 'C15', 'C16'], 'R17N4': ['C14', 'C15', 'C17', 'C19'], 'R17N5': ['C01', 'C02', 'C04', 'C09', 'C10', 'C12']}
+for _g, _ps in _R17.items():
+    for _j in (1, 2, 3, 4):
+        _f = 'selftest/negative/%s-p%d.patch' % (_g, _j)
+        if os.path.exists(os.path.join(os.path.dirname(os.path.dirname(os.path.abspath(__file__))), _f)):
+            for _p in _ps:
+                NEGATIVE[_p].append(_f)
+
 # rules that are also evaluated on the other production configurations in the thorough tier (guards against feature-gated divergence)
 def thorough_extra(pid):
     R = []
